@@ -60,10 +60,13 @@ class State:
     dead: bool = False
     #: pending disequalities d != 0
     ne: list[Lin] = field(default_factory=list)
+    #: boolean locals bound to a comparison: name -> (expression, the values
+    #: its variables had when it was evaluated)
+    conds: dict[str, tuple] = field(default_factory=dict)
 
     def copy(self) -> "State":
         return State(dict(self.vals), list(self.facts), dict(self.ranges),
-                     self.dead, list(self.ne))
+                     self.dead, list(self.ne), dict(self.conds))
 
     def add(self, e: Lin) -> None:
         if e.is_const():
@@ -686,6 +689,14 @@ class Analyzer:
                 self.ob(p, f"{what}[{ast.unparse(p)}]", False,
                         "index value is not tracked as an integer")
                 continue
+            lem = getattr(self.contract, "index_lemmas", {}).get(
+                (self.cur.name, what, ax))
+            if lem is not None:
+                # a documented lemma about every index into this axis
+                if lem[0] is not None:
+                    st.add(iv - self._L(lem[0]))
+                if lem[1] is not None:
+                    st.add(self._L(lem[1]) - iv)
             self._index_ok(st, p, iv, dim, f"{what} axis {ax}")
             fixed[ax] = iv
         free += axes[len(parts):]
@@ -1020,6 +1031,14 @@ class Analyzer:
                     self.assume(st, v, truth)
             # otherwise a disjunction of outcomes: no refinement (sound)
             return st
+        if isinstance(cond, ast.Name) and cond.id in st.conds:
+            # a flag that holds the outcome of an earlier comparison whose
+            # variables still have the values they had then
+            expr, snap = st.conds[cond.id]
+            if all(isinstance(v, Lin) and st.vals.get(k) == v
+                   for k, v in snap.items()):
+                return self.assume(st, expr, truth)
+            return st
         if isinstance(cond, ast.Compare):
             left = cond.left
             q = self.quiet
@@ -1203,6 +1222,15 @@ class Analyzer:
             if t.id not in rel and isinstance(val, Lin):
                 val = UNK
             st.vals[t.id] = val if val is not None else UNK
+            st.conds.pop(t.id, None)
+            sv = getattr(s, "value", None)
+            if isinstance(s, (ast.Assign, ast.AnnAssign)) and isinstance(
+                    sv, (ast.Compare, ast.BoolOp, ast.UnaryOp)) and not any(
+                    isinstance(x, (ast.Subscript, ast.Call, ast.Attribute))
+                    for x in ast.walk(sv)):
+                nm = {x.id for x in ast.walk(sv) if isinstance(x, ast.Name)}
+                if t.id not in nm:
+                    st.conds[t.id] = (sv, {k: st.vals.get(k) for k in nm})
             lem = getattr(self.contract, "var_lemmas", {}).get(
                 (self.cur.name, t.id))
             if lem is not None:
